@@ -6,7 +6,7 @@ the runes of the event and of the report, and for the events of the two domains 
 (`*_dom`, kernel-evaluated).  Only theorems + examples.
 -/
 import VaxisModel.Props.C13Keypad
-import VaxisModel.Lemmas.KeyCongr
+import VaxisModel.Lemmas.TermKeyCongr
 
 namespace VaxisModel.Props.C13Uni
 open VaxisModel.Model.Key VaxisModel.Model.TermKey
